@@ -15,6 +15,7 @@
 package syncsim
 
 import (
+	"verif/engines/knobs"
 	"bytes"
 	"context"
 	"encoding/json"
@@ -178,6 +179,8 @@ type segment struct {
 
 func (engine) Exec(rc *harness.RunCtx, p *harness.Plan) *harness.Outcome {
 	out := &harness.Outcome{Fired: map[string]int{}, Reached: map[string]int{}}
+	knobsDone := knobs.Apply(p)
+	defer func() { knobsDone(out) }()
 	if rc.Sched == nil {
 		out.Inconclusive = "syncsim runs under the scheduler only (Plan.Bubble)"
 		return out
@@ -196,6 +199,21 @@ func (engine) Exec(rc *harness.RunCtx, p *harness.Plan) *harness.Outcome {
 		if ops[i].K == "upload" && (ops[i].B < 0 || ops[i].B >= len(cfg.Blobs)) {
 			out.Inconclusive = "op refers to blob outside pool"
 			return out
+		}
+	}
+	if cfg.PendingBatch > 0 || cfg.WorkBuf > 0 {
+		if cfg.WorkBuf > 0 && cfg.PendingBatch > cfg.WorkBuf {
+			out.Inconclusive = "bad config: pendingBatch > workBuf"
+			return out
+		}
+		if oldP, oldW, ok := server.VerifSetSyncBatches(cfg.PendingBatch, cfg.WorkBuf); ok {
+			defer server.VerifSetSyncBatches(oldP, oldW)
+			if cfg.PendingBatch > 0 {
+				out.Reached["pending-batch-lowered"]++
+			}
+			if cfg.WorkBuf > 0 {
+				out.Reached["work-buffer-lowered"]++
+			}
 		}
 	}
 	if cfg.BoundS <= 0 {
